@@ -42,11 +42,18 @@ func initWorld() {
 
 // sizeName renders a request size relative to R.
 func sizes() ([]int, []string) {
-	return []int{0, 1, 48, R / 2, R - 48, R, R + 1, 1<<47 + 1}, []string{"0", "1", "48", "R/2", "R-48", "R", "R+1", "2^47+1"}
+	return []int{0, 1, 20, 48, R / 2, R - 48, R, R + 1, 1<<47 + 1}, []string{"0", "1", "20", "48", "R/2", "R-48", "R", "R+1", "2^47+1"}
 }
 
 type region struct {
 	lo, hi uintptr
+}
+
+// liveRegion is a region handed out in this history (space is nil on the direct fallback path).
+type liveRegion struct {
+	addr  uintptr
+	n     int
+	space *zz.Space
 }
 
 func resetWorld() {
@@ -110,6 +117,7 @@ func runSeq(mode string, reqs []int, mmapOK []bool) (fail string) {
 	defer func() { vsys.MmapFail = nil }()
 	modelOff := min
 	var got []region
+	var live []liveRegion
 	for step, n := range reqs {
 		var (
 			addr  uintptr
@@ -168,6 +176,9 @@ func runSeq(mode string, reqs []int, mmapOK []bool) (fail string) {
 			}
 		}
 		got = append(got, r)
+		if n > 0 && n <= 1<<16 {
+			live = append(live, liveRegion{addr, n, space})
+		}
 		if typ != zz.TypeHolder && n > 0 && n <= 1<<20 {
 			if o, clash := claimMapped(r); clash {
 				return fmt.Sprintf("step %d: region overlaps a region of %d bytes handed out in an earlier history of this process (nothing is ever released)", step, int(o.hi-o.lo))
@@ -195,6 +206,42 @@ func runSeq(mode string, reqs []int, mmapOK []bool) (fail string) {
 					(*sp)[n-1] = 0xA5
 				}
 			}
+		}
+	}
+	// second pass, last region first: every region is filled completely (a writer that spills over the
+	// end of its region damages the region behind it, which was written before); then all regions
+	// are read back and the part of the reserve that was never handed out must still be pristine
+	fills := make([][]byte, len(live))
+	for i := len(live) - 1; i >= 0; i-- {
+		lr := live[i]
+		data := make([]byte, lr.n)
+		for j := range data {
+			data[j] = byte(j)*13 + byte(i)*29 + 5
+		}
+		fills[i] = data
+		var werr error
+		if lr.space != nil {
+			werr = zz.Write(lr.space, data)
+		} else {
+			werr = zz.WriteTo(lr.addr, data)
+		}
+		if werr != nil {
+			return fmt.Sprintf("second pass: writing region %d (%d bytes) failed: %v", i, lr.n, werr)
+		}
+	}
+	for i, lr := range live {
+		if got := vk.Raw(lr.addr, lr.n); !bytes.Equal(got, fills[i]) {
+			first := 0
+			for first < lr.n && got[first] == fills[i][first] {
+				first++
+			}
+			return fmt.Sprintf("second pass: region %d (%d bytes) no longer holds what was written to it (from byte %d on) after the regions before it were written: a write went beyond its own region", i, lr.n, first)
+		}
+	}
+	{
+		off := int(modelOff - min)
+		if off >= 0 && off < R && !bytes.Equal(vk.Raw(min+uintptr(off), R-off), pristineHo[off:]) {
+			return fmt.Sprintf("second pass: bytes of the reserve behind the last region handed out ([min+%d, min+%d)) changed", off, R)
 		}
 	}
 	// nothing outside the reserve changed
